@@ -98,6 +98,7 @@ func ringIntersectsPoint(ring Ring, point Point, allowOnEdge bool) ringResult {
 
 func ringContainsSegment(ring Ring, seg Segment, allowOnEdge bool) bool {
 	if !ring.Rect().ContainsPoint(seg.A) || !ring.Rect().ContainsPoint(seg.B) { // Optimization
+		verifSite(1)
 		return false
 	}
 
@@ -105,18 +106,22 @@ func ringContainsSegment(ring Ring, seg Segment, allowOnEdge bool) bool {
 	resA := ringContainsPoint(ring, seg.A, allowOnEdge)
 	if !resA.hit {
 		// seg A is not inside ring
+		verifSite(2)
 		return false
 	}
 	if seg.B == seg.A {
+		verifSite(3)
 		return true
 	}
 	resB := ringContainsPoint(ring, seg.B, allowOnEdge)
 	if !resB.hit {
 		// seg B is not inside ring
+		verifSite(4)
 		return false
 	}
 	if ring.Convex() {
 		// ring is convex so the segment must be contained
+		verifSite(5)
 		return true
 	}
 
@@ -132,6 +137,7 @@ func ringContainsSegment(ring Ring, seg Segment, allowOnEdge bool) bool {
 					// case (3)
 					// seg A and B share the same ring segment, so it must be
 					// on the inside.
+					verifSite(6)
 					return true
 				}
 				// case (1)
@@ -148,6 +154,7 @@ func ringContainsSegment(ring Ring, seg Segment, allowOnEdge bool) bool {
 					rSegB.A == seg.A || rSegB.B == seg.A ||
 					rSegA.A == seg.B || rSegA.B == seg.B ||
 					rSegB.A == seg.B || rSegB.B == seg.B {
+					verifSite(7)
 					return true
 				}
 
@@ -166,6 +173,7 @@ func ringContainsSegment(ring Ring, seg Segment, allowOnEdge bool) bool {
 				clockwise := cwc > 0
 				if clockwise != ring.Clockwise() {
 					// -- on the outside
+					verifSite(8)
 					return false
 				}
 				// the passover space is on the inside of the ring.
@@ -181,6 +189,7 @@ func ringContainsSegment(ring Ring, seg Segment, allowOnEdge bool) bool {
 					}
 					return true
 				})
+				verifSite(9)
 				return !intersects
 			}
 			// case (4)
@@ -196,6 +205,7 @@ func ringContainsSegment(ring Ring, seg Segment, allowOnEdge bool) bool {
 				}
 				return true
 			})
+			verifSite(10)
 			return !intersects
 		} else if resB.idx != -1 {
 			// case (2)
@@ -211,6 +221,7 @@ func ringContainsSegment(ring Ring, seg Segment, allowOnEdge bool) bool {
 				}
 				return true
 			})
+			verifSite(11)
 			return !intersects
 		}
 		// case (5) (15)
@@ -224,6 +235,7 @@ func ringContainsSegment(ring Ring, seg Segment, allowOnEdge bool) bool {
 			}
 			return true
 		})
+		verifSite(12)
 		return !intersects
 	}
 
@@ -239,6 +251,7 @@ func ringContainsSegment(ring Ring, seg Segment, allowOnEdge bool) bool {
 		}
 		return true
 	})
+	verifSite(13)
 	return !intersects
 }
 
